@@ -468,21 +468,31 @@ def expectedMappingShape : MappingShape :=
     resultsAfterAssignment := true, hdf5SkipsResults := true,
     hdf5ResultsGuarded := true }
 
-/-! ### merging worker results (C04) -/
+/-! ### merging worker results (C04)
+
+A *completion order* is the list of the workers' records in the order the
+workers finished: any permutation of the dispatch-order list.  Keys (cell ids,
+scratch paths, first pair index, parent ids) are `Nat` ids. -/
 
 /-- Python `dict` assignment `d[k] = v` on the item list -/
-def dictSet {κ ν} [BEq κ] (d : List (κ × ν)) (k : κ) (v : ν) : List (κ × ν) :=
+def dictSet {ν} (d : List (Nat × ν)) (k : Nat) (v : ν) : List (Nat × ν) :=
   if d.any (fun e => e.1 == k) then d.map (fun e => if e.1 == k then (k, v) else e)
   else d ++ [(k, v)]
 
-/-- `{k: v for (k, v) in items}` -/
-def dictOfList {κ ν} [BEq κ] (items : List (κ × ν)) : List (κ × ν) :=
+/-- `{k: v for (k, v) in items}` / a store filled record by record -/
+def dictOfList {ν} (items : List (Nat × ν)) : List (Nat × ν) :=
   items.foldl (fun d e => dictSet d e.1 e.2) []
 
-/-- `d[k]` (`none` = KeyError) -/
-def dictGet {κ ν} [BEq κ] (d : List (κ × ν)) (k : κ) : Option ν := d.lookup k
+/-- `d[k]` (`none` = KeyError / missing file) -/
+def dictGet {ν} (d : List (Nat × ν)) (k : Nat) : Option ν := d.lookup k
 
-/-- the chunks' outputs in the order the workers completed -/
+/-- `[f(x) for x in xs]` where any `f(x)` may raise: `none` if one does -/
+def collect {α} : List (Option α) → Option (List α)
+  | [] => some []
+  | none :: _ => none
+  | some a :: r => (collect r).map (a :: ·)
+
+/-- the workers' outputs in the order the workers completed -/
 def gather {ρ} (results : List ρ) (completion : List Nat) : List ρ :=
   completion.filterMap (fun w => results[w]?)
 
@@ -490,53 +500,50 @@ def gather {ρ} (results : List ρ) (completion : List Nat) : List ρ :=
 `{c['cell_id']: c for c in blob}` then `[blob[c] for c in cell_order]` -/
 def reorderBlob {ν} (blob : List (Nat × ν)) (cellOrder : List Nat) : Option (List (Nat × ν)) :=
   let d := dictOfList blob
-  cellOrder.mapM (fun c => (dictGet d c).map (fun v => (c, v)))
+  collect (cellOrder.map (fun c => (dictGet d c).map (fun v => (c, v))))
 
 /-- discipline 1 (mapping): each worker appends its cells' records to the
-shared list (or writes its own chunk file; the files are then concatenated in
-*some* order); the concatenation is re-keyed by cell id -/
-def mergeAppendRekey {ν} (perWorker : List (List (Nat × ν))) (completion : List Nat)
-    (cellOrder : List Nat) : Option (List (Nat × ν)) :=
-  reorderBlob (gather perWorker completion).flatten cellOrder
+shared list under the lock (or writes its own chunk file; the files are
+concatenated in *some* order); the concatenation is re-keyed by cell id.
+`doneChunks` = the per-chunk record lists in completion order. -/
+def mergeAppendRekey {ν} (doneChunks : List (List (Nat × ν))) (cellOrder : List Nat) :
+    Option (List (Nat × ν)) :=
+  reorderBlob doneChunks.flatten cellOrder
 
-/-- discipline 2 (statistics): worker `w` writes its buffer to its own path
-`pathOf w` when it completes; the buffers are then read back and added up in
-creation order (`for buffer_path in buffer_path_list`). `none` = a buffer file
-is missing. -/
-def mergeSumCreationOrder {β} (add : β → β → β) (zero : β) (buffers : List β)
-    (pathOf : Nat → Nat) (completion : List Nat) : Option β :=
-  let store := dictOfList (completion.filterMap fun w => buffers[w]?.map fun b => (pathOf w, b))
-  ((List.range buffers.length).mapM (fun w => dictGet store (pathOf w))).map
-    (fun bs => bs.foldl add zero)
+/-- discipline 2 (statistics): every worker writes its buffer to its own
+scratch path when it completes (`done` = `(path, buffer)` in completion
+order); the buffers are read back and added up in creation order
+(`for buffer_path in buffer_path_list`).  `none` = a buffer file is missing. -/
+def mergeSumCreationOrder {β} (add : β → β → β) (zero : β) (paths : List Nat)
+    (done : List (Nat × β)) : Option β :=
+  (collect (paths.map (dictGet (dictOfList done)))).map (fun bs => bs.foldl add zero)
 
-/-- insertion sort on keys (`list.sort()` of distinct ints) -/
+/-- insertion into an ascending list -/
 def insertKey (k : Nat) : List Nat → List Nat
   | [] => [k]
   | x :: r => if k ≤ x then k :: x :: r else x :: insertKey k r
 
+/-- `list.sort()` on integer keys (insertion sort: any sorting algorithm gives
+the same list) -/
 def sortKeys (ks : List Nat) : List Nat := ks.foldr insertKey []
 
 /-- discipline 3 (reference markers, p-value mask): chunk files keyed by their
-first index, written at completion, merged `for k in sorted(keys)` -/
-def mergeSortedKeys {ρ} (chunks : List ρ) (keyOf : Nat → Nat) (completion : List Nat) :
-    Option (List ρ) :=
-  let store := dictOfList (completion.filterMap fun w => chunks[w]?.map fun c => (keyOf w, c))
-  (sortKeys (store.map (·.1))).mapM (fun k => dictGet store k)
+first index (`done` = `(first index, chunk)` in completion order), merged
+`for k in sorted(keys)` -/
+def mergeSortedKeys {ρ} (done : List (Nat × ρ)) : Option (List ρ) :=
+  let store := dictOfList done
+  collect ((sortKeys (store.map (·.1))).map (dictGet store))
 
 /-- discipline 3' (parallel transposition): chunk files in a list filled at
-dispatch, concatenated in that order -/
-def mergeConcatCreationOrder {ρ} (chunks : List ρ) (pathOf : Nat → Nat) (completion : List Nat) :
-    Option (List ρ) :=
-  let store := dictOfList (completion.filterMap fun w => chunks[w]?.map fun c => (pathOf w, c))
-  (List.range chunks.length).mapM (fun w => dictGet store (pathOf w))
+dispatch (`paths`), concatenated in that order -/
+def mergeConcatCreationOrder {ρ} (paths : List Nat) (done : List (Nat × ρ)) : Option (List ρ) :=
+  collect (paths.map (dictGet (dictOfList done)))
 
-/-- discipline 4 (query marker selection): `output_dict[parent] = markers`
-at completion; the result is the mapping, read here key by key for the keys
-the caller asks for -/
-def mergeDictByKey {ρ} (results : List ρ) (keyOf : Nat → Nat) (completion : List Nat)
-    (ask : List Nat) : List (Option ρ) :=
-  let store := dictOfList (completion.filterMap fun w => results[w]?.map fun c => (keyOf w, c))
-  ask.map (fun k => dictGet store k)
+/-- discipline 4 (query marker selection): `output_dict[parent] = markers` at
+completion; the result is the mapping, read here for the keys the caller asks
+for -/
+def mergeDictByKey {ρ} (done : List (Nat × ρ)) (ask : List Nat) : List (Option ρ) :=
+  ask.map (dictGet (dictOfList done))
 
 /-! ### chunking of the mapping stage and dispatch-order seeds -/
 
@@ -556,13 +563,12 @@ def chunks (n step : Nat) : List (Nat × Nat) := chunksFrom n step n 0
 def dispatchSeeds {σ} (cs : List (Nat × Nat)) (draws : Nat → σ) : List ((Nat × Nat) × σ) :=
   cs.zipIdx.map (fun (c, k) => (c, draws k))
 
-/-- the mapping stage: chunks by `effChunk`, seeds by dispatch order, worker
-= pure function of (rows, seed), merge = append + re-key -/
-def mapStage {σ ν} (nRows nProc chunkSize : Nat) (draws : Nat → σ)
-    (worker : (Nat × Nat) → σ → List (Nat × ν)) (completion : List Nat)
-    (cellOrder : List Nat) : Option (List (Nat × ν)) :=
-  let jobs := dispatchSeeds (chunks nRows (effChunk nRows nProc chunkSize)) draws
-  mergeAppendRekey (jobs.map fun j => worker j.1 j.2) completion cellOrder
+/-- the per-chunk outputs of the mapping stage in dispatch order: chunks by
+`effChunk`, seeds by dispatch order, worker = a function of (rows, seed) -/
+def mapStageResults {σ ν} (nRows nProc chunkSize : Nat) (draws : Nat → σ)
+    (worker : (Nat × Nat) → σ → List (Nat × ν)) : List (List (Nat × ν)) :=
+  (dispatchSeeds (chunks nRows (effChunk nRows nProc chunkSize)) draws).map
+    (fun j => worker j.1 j.2)
 
 /-! ### feasible completion orders (for the C04 harness) -/
 
